@@ -170,6 +170,8 @@ func sendValue(p Param) (string, bool) {
 		return "1", true
 	case "high":
 		return "99", true
+	case "empty":
+		return "", true // the parameter is there, with nothing in it
 	}
 	return "", false
 }
@@ -178,6 +180,9 @@ func paramValid(p Param) bool {
 	v, present := sendValue(p)
 	if !present {
 		return !p.Required
+	}
+	if v == "" {
+		return false // an empty value is not allowed (no allowEmptyValue here), in whatever location
 	}
 	if p.Level == "both" {
 		return v == "99" // the operation-level declaration is in effect
@@ -548,7 +553,7 @@ func gen(t *rapid.T) Case {
 	seen := map[string]bool{}
 	for i := 0; i < n; i++ {
 		p := Param{In: rapid.SampledFrom([]string{"query", "header", "cookie"}).Draw(t, "in"), Name: rapid.SampledFrom([]string{"a", "b", "c", "d", "A", "B"}).Draw(t, "name"),
-			Level: rapid.SampledFrom([]string{"path", "op", "both"}).Draw(t, "level"), Send: rapid.SampledFrom([]string{"absent", "low", "high"}).Draw(t, "send"), Required: rapid.Bool().Draw(t, "required")}
+			Level: rapid.SampledFrom([]string{"path", "op", "both"}).Draw(t, "level"), Send: rapid.SampledFrom([]string{"absent", "low", "high", "low", "high", "empty"}).Draw(t, "send"), Required: rapid.Bool().Draw(t, "required")}
 		// names are case-sensitive outside headers: "A" next to "a" is another parameter
 		key := p.In + ":" + p.Name
 		if p.In == "header" {
